@@ -181,6 +181,8 @@ def snep_oracle(sc, ob):
         st = party_state(out.get(side))
         if st == "hard-timeout":
             bad.append(("snep-run-does-not-end", "%s thread did not finish" % side))
+        elif st == "runaway":
+            bad.append(("snep-program-sends-for-ever", "%s side sent more than %d messages without ever waiting" % (side, link.MAX_MESSAGES)))
         elif st.startswith("crashed") or (st == "deadlock" and side == "c"):
             bad.append(("snep-unexpected-exception-or-hang", "%s side: %s" % (side, st)))
     if (sc["close"] or sc["auto"]) and party_state(out.get("s")) != "closed":
